@@ -2,6 +2,7 @@ package rpc
 
 import (
 	"context"
+	"math"
 	"time"
 
 	"github.com/getlantern/bytemap"
@@ -15,6 +16,10 @@ import (
 
 const (
 	PasswordKey = "pwd"
+
+	// MaxMessageSize is the maximum size of a single gRPC message. This is the
+	// largest size that gRPC supports.
+	MaxMessageSize = math.MaxInt32
 )
 
 var (
